@@ -461,6 +461,23 @@ int main(int argc, char** argv) {
         return 0;
     }
     std::vector<std::pair<int,int>> items;
+    // the public property names must denote the identifiers of the MQTT 5 specification (table 2-4): application code reads
+    // props[prop::name], so a name bound to another identifier is a wrong field even though encode/decode stay self-consistent
+    if (mode == "c18" || mode == "c17") {
+        namespace pp = boost::mqtt5::prop;
+        struct N { const char* name; int lib; int spec; } names[] = {
+            {"payload_format_indicator", pp::payload_format_indicator.value, 0x01}, {"message_expiry_interval", pp::message_expiry_interval.value, 0x02}, {"content_type", pp::content_type.value, 0x03},
+            {"response_topic", pp::response_topic.value, 0x08}, {"correlation_data", pp::correlation_data.value, 0x09}, {"subscription_identifier", pp::subscription_identifier.value, 0x0B},
+            {"session_expiry_interval", pp::session_expiry_interval.value, 0x11}, {"assigned_client_identifier", pp::assigned_client_identifier.value, 0x12}, {"server_keep_alive", pp::server_keep_alive.value, 0x13},
+            {"authentication_method", pp::authentication_method.value, 0x15}, {"authentication_data", pp::authentication_data.value, 0x16}, {"request_problem_information", pp::request_problem_information.value, 0x17},
+            {"will_delay_interval", pp::will_delay_interval.value, 0x18}, {"request_response_information", pp::request_response_information.value, 0x19}, {"response_information", pp::response_information.value, 0x1A},
+            {"server_reference", pp::server_reference.value, 0x1C}, {"reason_string", pp::reason_string.value, 0x1F}, {"receive_maximum", pp::receive_maximum.value, 0x21}, {"topic_alias_maximum", pp::topic_alias_maximum.value, 0x22},
+            {"topic_alias", pp::topic_alias.value, 0x23}, {"maximum_qos", pp::maximum_qos.value, 0x24}, {"retain_available", pp::retain_available.value, 0x25}, {"user_property", pp::user_property.value, 0x26},
+            {"maximum_packet_size", pp::maximum_packet_size.value, 0x27}, {"wildcard_subscription_available", pp::wildcard_subscription_available.value, 0x28},
+            {"subscription_identifier_available", pp::subscription_identifier_available.value, 0x29}, {"shared_subscription_available", pp::shared_subscription_available.value, 0x2A} };
+        for (auto& n : names) { SH->cases++; if (n.lib != n.spec) { char d[160]; snprintf(d, sizeof d, "prop::%s denotes identifier 0x%02x, the specification assigns 0x%02x", n.name, n.lib, n.spec);
+            add_violation(std::string(mode == "c18" ? "C18" : "C17") + ":wrong-field:property-name:" + n.name, d, "{\"kind\":\"codec\",\"mode\":\"" + mode + "\",\"hex\":\"\"}"); } }
+    }
     if (mode == "c18") for (int i = 0; i < 10; ++i) items.emplace_back(0, BROKER_TYPES[i]);
     else if (mode == "c17") for (int i = 0; i < 11; ++i) items.emplace_back(0, CLIENT_TYPES[i]);
     else { for (int b = 0; b <= 256; ++b) items.emplace_back(1, b); for (int k = 0; k < 13; ++k) items.emplace_back(2, k); for (int k = 0; k < 160; ++k) items.emplace_back(3, k); items.emplace_back(4, 0); }
